@@ -635,6 +635,31 @@ func runC05(c *Ctx) {
 			c.Find("c05/regionsForShape/banks-do-not-sum-to-ram", fmt.Sprintf("%s: %d", name, sum), op)
 		}
 	}
+	// options values held across later calls: the bank list handed out for one shape is the caller's; building
+	// options for other shapes afterwards must not reach into it (every ordered pair, largest shapes first)
+	{
+		type held struct {
+			name string
+			o    *tdx.LaunchOptions
+			was  string
+		}
+		var hs []held
+		for i := len(c05Shapes) - 1; i >= 0; i-- {
+			o := tdx.LaunchOptionsDefaultTDHOBBug(c05Shapes[i])
+			hs = append(hs, held{c05Shapes[i], o, showGprs(o.GuestRAMBanks)})
+		}
+		for _, name := range c05Shapes {
+			o := tdx.LaunchOptionsDefaultTDHOBBug(name)
+			hs = append(hs, held{name, o, showGprs(o.GuestRAMBanks)})
+		}
+		for _, h := range hs {
+			c.Count("shape-options-held")
+			if now := showGprs(h.o.GuestRAMBanks); now != h.was {
+				c.Find("c05/LaunchOptionsDefaultTDHOBBug/banks-changed-by-later-call", fmt.Sprintf("the RAM banks of the options built for %s were %s and are %s after options for other shapes were built", h.name, h.was, now),
+					"c05 op=shape-held name="+h.name)
+			}
+		}
+	}
 	c05Intervals(c)
 	// MRTD / regions / unsigned
 	n := c.N(700, 5000)
